@@ -44,11 +44,16 @@ def dv(k, depth=0):
             at, e = sg[0][0]
             inner = dv(at, depth + 1) if isinstance(at, tuple) else None
             if inner is None: return None
+            if inner[0] == 'bad': return inner
             c = Poly.const(sg[1][0])
             if e == 1: return (inner[0], [(f * c if isinstance(f, Poly) else ('raw', (sg[1], f)), src) for f, src in inner[1]])
+            if e == -1 and inner[0] == 'vec':           # c / v for a vector v: the element-wise reciprocal
+                return ('vec', [(f.inv() * c if isinstance(f, Poly) else ('raw', ('inv', f)), src) for f, src in inner[1]])
             return None
         return None
     h = k[0]
+    if h in ('diag', 'diagonal') and len(k) == 2:          # np.diag in its atom spelling (the argument was a plain term)
+        return dv(('opq', 'np.' + h, k[1]), depth + 1)
     if h == 'inv' and len(k) == 2:                         # inverse of a diagonal matrix
         inner = dv(k[1], depth + 1)
         if inner and inner[0] == 'mat': return ('mat', [(f.inv() if isinstance(f, Poly) else ('raw', ('inv', f)), src) for f, src in inner[1]])
@@ -83,6 +88,14 @@ def dv(k, depth=0):
                 return None
         if inner[0] != 'vec': return None
         return ('vec', [(elt.subst(lambda a, f=f: f if a == beta else None) if isinstance(f, Poly) else ('raw', (k[2], f)), src) for f, src in inner[1]])
+    if h == 'call' and len(k) == 4 and isinstance(k[1], tuple) and k[1][0] == '.' and k[1][2] in ('copy', 'tolist', 'ravel', 'flatten') and not k[2] and not k[3]:
+        return dv(('poly', (((k[1][1], F(1)),), (F(1), F(0)))) if not (isinstance(k[1][1], tuple) and k[1][1][:1] == ('poly',)) else k[1][1], depth + 1)
+    if h == 'opq' and len(k) >= 4 and k[1] == 'build':
+        # values stored into a diagonal / value vector after it was formed: it is no longer the vector of the element values
+        inner = dv(k[2], depth + 1)
+        if inner is not None and inner[0] in ('vec', 'mat') and k[3]:
+            return ('bad', 'entries of the value vector are overwritten (data-dependent store) before it is used')
+        return inner if inner is not None and inner[0] == 'bad' else None
     if h == 'opq' and len(k) >= 3:
         fn = k[1]
         if fn in ('values',) and len(k) == 3: return ('vec', [(X, k)])
